@@ -1341,6 +1341,14 @@ impl World {
             .iter()
             .filter(|hs| hs.iter().all(|h| self.reps[r].known.contains(h)))
             .collect();
+        // one selector in five names the replica's *current* heads: every heads-taking call has a "heads are current" fast
+        // path (clock_at, transaction_args, diff), and a uniform pick from up to 64 recorded head sets almost never hits it
+        // at the moment the replica is exactly there
+        if sel % 5 == 4 && !self.reps[r].known.is_empty() {
+            let mut hs = self.reg.heads_of(&self.reps[r].known);
+            hs.sort();
+            return Some(hs);
+        }
         if cands.is_empty() {
             None
         } else {
